@@ -537,7 +537,7 @@ def main(argv):
                 other_props[o['cls'].split('/')[0] + '/' + o['cls'].split('/')[1]] += 1
         triaged = 0
         for c in sorted(b.crashes, key=lambda c: c['idx']):
-            if triaged >= 24 or time.time() - t_start > (900 if tier == 'quick' else 3600):
+            if triaged >= 24 or (triaged >= 6 and time.time() - t_start > (900 if tier == 'quick' else 3600)):
                 # every abnormal end is counted; only the first ones (by run index) are re-run and classified - a change that
                 # breaks every run must not turn the check into hours of re-execution
                 extra['abnormal_ends_not_triaged'] = extra.get('abnormal_ends_not_triaged', 0) + 1
